@@ -964,6 +964,135 @@ theorem c08_cn_roundtrip (s : Suite) (k k' : Key) :
   · rfl
   · intro h; cases h; rfl
 
+/-- **end to end, over arbitrary traces** (the property's "consequently"): whatever the network and the
+adversary did, if the router of honest handshake `i` dispatches an envelope — on the accepted connection
+under the identity the peer declared, on the dialled connection under the identity that was dialled —
+and the key attached to it is one the adversary does not hold, then the holder of that key made a
+certificate for *this* handshake's nonce, after the nonce was drawn.  Identity test, verifier and
+freshness in one statement. -/
+theorem c08_dispatched_key_proved_fresh (S : Setting) (evs : List Ev) (w : World)
+    (hrun : run S {} evs = some w) (i : Nat) (c : Cert) (hacc : (i, c) ∈ w.acc) (e : Envelope)
+    (hhon : S.adv e.1.pub = false)
+    (hdisp : (∃ validPeer closed first msgs, e ∈ acceptConn S.suite (.hon i) validPeer closed [c] first msgs) ∨
+             (∃ them closed msgs, e ∈ dialConn S.suite (.hon i) them closed [c] msgs)) :
+    ∃ pre ev post w₁, evs = pre ++ ev :: post ∧ Signs e.1.pub (.hon i) c.cn ev ∧
+      run S {} pre = some w₁ ∧ i < w₁.hs.length := by
+  have hkey : pubFromCN S.suite c.cn = some e.1.pub := by
+    rcases hdisp with ⟨vp, closed, first, msgs, he⟩ | ⟨them, closed, msgs, he⟩
+    · have := ((c08_identity_matches_key S.suite (.hon i) [c] msgs closed).1 vp first e he).2.2
+      simpa [peerKey] using this
+    · have := (c08_identity_matches_key S.suite (.hon i) [c] msgs closed).2 them e he
+      have h1 := this.1
+      have h2 := this.2.2
+      rw [h1]
+      simpa [peerKey] using h2
+  exact c08_fresh_signature S evs w hrun i c e.1.pub hacc hkey hhon
+
+/-- met by an honest run: handshake 0 (dialling role) accepts the real server's certificate, a message
+read from the connection is dispatched under the dialled identity -/
+example : ∃ w, run relaySetting {} [.mkVerifier (some 1), .honest 0 1 .new] = some w ∧
+    (0, honestCert 1 101 (.hon 0)) ∈ w.acc ∧
+    ((⟨1, 0⟩, 7) : Envelope) ∈ dialConn relaySetting.suite (.hon 0) ⟨1, 0⟩ false [honestCert 1 101 (.hon 0)] [7] := by
+  refine ⟨_, rfl, ?_, ?_⟩ <;> decide
+
+/-! ### round 5: the message phase — the identity proven at set-up stays attached, whatever is sent afterwards -/
+
+/-- the loop treats the stream frame by frame: what it does with a sequence is what it does with its
+parts, one after the other (no frame changes how a later one is handled) -/
+theorem handleConn_append (remote : Identity) (l₁ l₂ : List Frame) :
+    handleConn remote (l₁ ++ l₂) = handleConn remote l₁ ++ handleConn remote l₂ := by
+  induction l₁ with
+  | nil => rfl
+  | cons f l ih => cases f <;> simp [handleConn, ih]
+
+theorem handleConn_sender (remote : Identity) (frames : List Frame) :
+    ∀ d ∈ handleConn remote frames, d.1 = remote := by
+  induction frames with
+  | nil => simp [handleConn]
+  | cons f l ih =>
+    cases f with
+    | none => simpa [handleConn] using ih
+    | some p =>
+      intro d hd
+      simp only [handleConn, List.mem_cons] at hd
+      rcases hd with rfl | hd
+      · rfl
+      · exact ih d hd
+
+/-- **the identity attached to every message of a TLS connection is the one proven at set-up — for every
+sequence of frames the peer sends afterwards**: refused frames, ordinary messages, `ServerIdentity`
+messages naming any key and carrying any id field.  Accepting role: it is the identity the peer declared
+first, the handshake succeeded and the declared key is the key named and proven by the certificate;
+dialling role: it is the dialled identity and the certificate names and proves exactly that key. -/
+theorem c08_session_identity_fixed (s : Suite) (n : Nonce) (raw : List Cert) (frames : List Frame)
+    (closed : Bool) :
+    (∀ validPeer first d, d ∈ acceptSession s n validPeer closed raw first frames →
+      first = .identity d.1 ∧ verifyPeer s none n raw = none ∧ peerKey s raw = some d.1.pub) ∧
+    (∀ them d, d ∈ dialSession s n them closed raw frames →
+      d.1 = them ∧ verifyPeer s (some them.pub) n raw = none ∧ peerKey s raw = some them.pub) := by
+  have key := c08_identity_matches_key s n raw [0] closed
+  constructor
+  · intro validPeer first d hd
+    unfold acceptSession at hd
+    split at hd; · simp at hd
+    rename_i hv
+    split at hd; · simp at hd
+    rename_i dst hr
+    split at hd
+    · rename_i hvp
+      have hs := handleConn_sender dst frames d hd
+      have : (dst, 0) ∈ acceptConn s n validPeer closed raw first [0] := by
+        simp [acceptConn, hv, hr, hvp]
+      have := key.1 validPeer first (dst, 0) this
+      rw [hs]; exact this
+    · simp at hd
+  · intro them d hd
+    unfold dialSession at hd
+    split at hd; · simp at hd
+    rename_i hv
+    split at hd; · simp at hd
+    rename_i hc
+    have hs := handleConn_sender them frames d hd
+    have : (them, 0) ∈ dialConn s n them closed raw [0] := by
+      simp [dialConn, hv, hc]
+    have := key.2 them (them, 0) this
+    rw [hs]; exact this
+
+/-- **an identity announced again changes nothing**: a `ServerIdentity` message in the middle of the
+stream — whatever key and id field it carries — reaches the dispatcher as a message of its type under
+the established identity, and everything after it is handled exactly as if it had not been sent -/
+theorem c08_reannouncement_ignored (remote id' : Identity) (pre post : List Frame) :
+    handleConn remote (pre ++ some (.identity id') :: post) =
+      handleConn remote pre ++ (remote, .identity id') :: handleConn remote post := by
+  rw [handleConn_append]; rfl
+
+/-- a peer that proved key 2 and then announces key 1 (with its own id field): its later messages are
+still dispatched under key 2 -/
+example : acceptSession ⟨true⟩ (.hon 1) (fun _ => true) false [honestCert 2 12 (.hon 1)] (.identity ⟨2, 0⟩)
+      [some (.data 7), some (.identity ⟨1, 3⟩), none, some (.data 8)] =
+    [(⟨2, 0⟩, .data 7), (⟨2, 0⟩, .identity ⟨1, 3⟩), (⟨2, 0⟩, .data 8)] := by decide
+
+/-- … and end to end over arbitrary traces: whatever sequence of frames follows the set-up of honest
+handshake `i`, every envelope that reaches the dispatcher with a key the adversary does not hold attached
+implies that the holder of that key made a certificate for this handshake's nonce after it was drawn -/
+theorem c08_session_key_proved_fresh (S : Setting) (evs : List Ev) (w : World)
+    (hrun : run S {} evs = some w) (i : Nat) (c : Cert) (hacc : (i, c) ∈ w.acc) (d : Dispatch)
+    (hhon : S.adv d.1.pub = false)
+    (hdisp : (∃ validPeer closed first frames, d ∈ acceptSession S.suite (.hon i) validPeer closed [c] first frames) ∨
+             (∃ them closed frames, d ∈ dialSession S.suite (.hon i) them closed [c] frames)) :
+    ∃ pre ev post w₁, evs = pre ++ ev :: post ∧ Signs d.1.pub (.hon i) c.cn ev ∧
+      run S {} pre = some w₁ ∧ i < w₁.hs.length := by
+  have hkey : pubFromCN S.suite c.cn = some d.1.pub := by
+    rcases hdisp with ⟨vp, closed, first, frames, he⟩ | ⟨them, closed, frames, he⟩
+    · have := ((c08_session_identity_fixed S.suite (.hon i) [c] frames closed).1 vp first d he).2.2
+      simpa [peerKey] using this
+    · have := (c08_session_identity_fixed S.suite (.hon i) [c] frames closed).2 them d he
+      have h1 := this.1
+      have h2 := this.2.2
+      rw [h1]
+      simpa [peerKey] using h2
+  exact c08_fresh_signature S evs w hrun i c d.1.pub hacc hkey hhon
+
 /-! ### the code regions the model stands for
 Regenerated from /repo's source on every run (`harness/cmd/astfacts` → `OnetVerif/Shapes.lean`): the
 calls that matter for synchronisation and data flow, the lock regions and (for decision logic) the
